@@ -96,6 +96,15 @@ func lattice(e *simEnv, p *refmatch.Probe, l *latticeCtx, other otherIdentities,
 				style = "min"
 			}
 			emit(gen.WrapError(l.next(v.V6), e.local, gen.TimeExceeded, 0, q, style, nil, 0), f.Name, pvv.name)
+			if v.Proto == "udp" {
+				// the same perturbed quote inside the other ICMP error a UDP probe elicits: destination unreachable (port
+				// unreachable). Which error type carries the quote changes nothing about whose probe it quotes
+				code := uint8(3)
+				if v.V6 {
+					code = 4
+				}
+				emit(gen.WrapError(l.next(v.V6), e.local, gen.DestUnreach, code, q, "full", nil, 0), f.Name+"@unreachable", pvv.name)
+			}
 		}
 	}
 	if !v.V6 && len(base) >= 28 {
